@@ -513,6 +513,18 @@ func (ii intInfo) wrap(t T) T {
 	return ite(ii.inRange(t), t, sub(app("mod", add(t, h), m), h))
 }
 
+// wrapOnce normalises the sum or difference of two values of the type: the
+// mathematical result is off by at most one modulus, so the wrap-around is a
+// case distinction and needs no mod (both operands satisfy the type's range
+// invariant, like every value of the type).
+func (ii intInfo) wrapOnce(t T) T {
+	if _, ok := isNumLit(t); ok {
+		return ii.wrap(t)
+	}
+	m := numBig(pow2(ii.bits))
+	return ite(lt(numBig(ii.max()), t), sub(t, m), ite(lt(t, numBig(ii.min())), add(t, m), t))
+}
+
 // typeInvariant returns the conjunction of range facts for all components.
 func typeInvariant(v Val) T {
 	var cs []T
